@@ -448,6 +448,7 @@ static bool
 expand(struct token *t)
 {
 	struct macro *m;
+	struct token *body;
 	bool space;
 
 	if (t->kind != TIDENT)
@@ -463,7 +464,11 @@ expand(struct token *t)
 			return false;
 		expandfunc(m);
 	}
-	ctxpush(m->token, m->ntoken, m, space);
+	/* expansion marks tokens as ineligible, which must not stick to the stored replacement list */
+	body = xreallocarray(NULL, m->ntoken, sizeof(*body));
+	if (m->ntoken)
+		memcpy(body, m->token, m->ntoken * sizeof(*body));
+	ctxpush(body, m->ntoken, m, space);
 	m->hide = true;
 	++macrodepth;
 	return true;
